@@ -1,6 +1,7 @@
 import Drivers.Common
 import RioModel.Model.PanicSlice
 import RioModel.Model.FfiNull
+import RioModel.Model.PanicTime
 open Lean
 
 /-- entry points whose early exit is not visible in the return value (void / echoing functions): the harness
@@ -10,18 +11,25 @@ def unobservable : List String := [
   "redirectionio_action_should_log_request", "redirectionio_trusted_proxies_add_proxy",
   "redirectionio_request_set_remote_addr", "redirectionio_request_drop", "redirectionio_api_buffer_drop"]
 
-/-- Model of the two logger initialisers (`src/callback_log.rs`): the `log` crate accepts ONE logger per
-process; `init_stderr` unwraps the result of installing one, `init_with_callback` does so inside a `Once`.
-`true` = the sequence returns normally, `false` = a panic (abort, since the functions are `extern "C"`). -/
-def loggerSeq : List String → (installed once : Bool) → Bool
+/-- Model of the two logger initialisers (`src/callback_log.rs`, after `fix: initialising the logger twice no
+longer aborts the host process`): the `log` crate accepts ONE logger per process; both functions now log and
+ignore the error of installing a second one (`init_with_callback` additionally runs once, `Once`).
+`true` = the sequence returns normally.  `aborted` is the behaviour before the repair, kept to document W8-F1. -/
+def loggerSeqOld : List String → (installed once : Bool) → Bool
   | [], _, _ => true
   | s :: rest, installed, once =>
     if s == "stderr" then
-      if installed then false else loggerSeq rest true once            -- stderrlog::new().init().unwrap()
+      if installed then false else loggerSeqOld rest true once          -- stderrlog::new().init().unwrap()
     else
-      if once then loggerSeq rest installed once                        -- INIT.call_once: already run
+      if once then loggerSeqOld rest installed once                      -- INIT.call_once: already run
       else if installed then false                                      -- .expect("cannot set logger")
-      else loggerSeq rest true true
+      else loggerSeqOld rest true true
+
+def loggerSeq : List String → (_installed _once : Bool) → Bool
+  | [], _, _ => true
+  | s :: rest, installed, once =>
+    if s == "stderr" then loggerSeq rest true once                      -- if let Err(err) = … { log::error!(..) }
+    else loggerSeq rest true true
 
 def handle (j : Json) : Except String Json := do
   let fam ← Drv.str? j "family"
@@ -50,10 +58,12 @@ def handle (j : Json) : Except String Json := do
     let okk := loggerSeq seq false false
     return Json.mkObj [("m", Json.mkObj [("child", if okk then "ok" else "abort")])]
   else if fam == "request_time" then
-    -- `VariableKind::RequestTime => request.created_at.map(|d| d.to_rfc2822())`: chrono panics when the year is
-    -- negative or has more than four digits
-    let year ← (j.getObjValAs? Int "year")
-    return Json.mkObj [("m", Json.mkObj [("panics", Json.bool (year < 0 || year > 9999))])]
+    let f ← (j.getObjValAs? (Array Int) "ymdhms")
+    if f.size != 6 then throw "ymdhms"
+    let c : Rio.Time.Civil := ⟨f[0]!, f[1]!.toNat, f[2]!.toNat, f[3]!.toNat, f[4]!.toNat, f[5]!.toNat⟩
+    match Rio.Time.requestTime c with
+    | .ok v => return Json.mkObj [("m", Json.mkObj [("panics", Json.bool false), ("value", toJson v)])]
+    | .panic => return Json.mkObj [("m", Json.mkObj [("panics", Json.bool true)])]
   else
     -- search families: the model's prediction is "returns normally"
     return Json.mkObj [("m", Json.mkObj [("ok", Json.bool true)])]
